@@ -1648,7 +1648,12 @@ where
             State::Down => {
                 // It's impossible to refute a Down state so we'll need
                 // to rejoin somehow
-                if !self.attempt_rejoin(&mut runtime)? {
+                // If we're down already there's nothing to recover from:
+                // rejoining here would bring back an instance that has
+                // deliberately left the cluster
+                if self.connection_state == ConnectionState::Undead
+                    || !self.attempt_rejoin(&mut runtime)?
+                {
                     self.become_undead(runtime);
                 }
             }
